@@ -56,7 +56,10 @@ def c16_case(draw, tier):
         if m is not None and draw(st.booleans()):
             # hidden columns in the table whose data is taken
             m2 = g.v_select(m) if draw(st.booleans()) else g.v_mutate(m, agg=False, win=False)
-            if m2 is not None and all(n in g.t(origin).vis() for n in g.t(m2).names()):
+            to, tm = g.t(origin), (g.t(m2) if m2 is not None else None)
+            # names exist in the reference source and denote columns of the same type there (the table is a
+            # materialised copy of the reference source: DESIGN 4.14)
+            if m2 is not None and all(n in to.vis() and to.fam[to.vis()[n]] == tm.fam[tm.vis()[n]] for n in tm.names()):
                 m = m2
         r = g.emit({"out": g.new_var(), "verb": "transfer", "in": m, "ref": origin}) if m is not None else None
         case["origin_cmp"] = m  # the data of a transfer comes from its first argument
